@@ -523,6 +523,7 @@ def splice_tail_helpers(prog: Program, fn: FuncInfo, rounds: int = 2,
 
     root = copy.deepcopy(fn.node)
     spliced: set[str] = set()
+    counts: dict[str, int] = {}
     for _ in range(rounds):
         changed = False
         for suite in list(nz._suite_lists(root)):
@@ -559,7 +560,9 @@ def splice_tail_helpers(prog: Program, fn: FuncInfo, rounds: int = 2,
                         or any(nz._has_await(v) for v in binds.values()):
                     continue
                 body = copy.deepcopy(nz._strip_doc(h.body))
-                ret = f"ret__{h.name.strip('_')}"
+                nth = counts.get(h.name, 0)
+                tag = h.name.strip("_") + (str(nth) if nth else "")
+                ret = f"ret__{tag}"
                 try:
                     body = _tail_assign(body, ret, [60])
                 except _NoSplice:
@@ -573,7 +576,7 @@ def splice_tail_helpers(prog: Program, fn: FuncInfo, rounds: int = 2,
                 held = {k for k, v in binds.items() if k not in stored and not (
                     nz._is_pure(v) and not any(isinstance(x, ast.Call) for x in ast.walk(v)))}
                 stored |= held
-                ren = {n: f"{n}__{h.name.strip('_')}" for n in stored if n != ret}
+                ren = {n: f"{n}__{tag}" for n in stored if n != ret}
                 for st in body:
                     for x in ast.walk(st):
                         if isinstance(x, ast.Name) and x.id in ren:
@@ -604,6 +607,7 @@ def splice_tail_helpers(prog: Program, fn: FuncInfo, rounds: int = 2,
                 suite[i - 1:i] = new
                 i += len(new) - 1
                 spliced.add(h.name)
+                counts[h.name] = nth + 1
                 changed = True
         if not changed:
             break
